@@ -4,11 +4,12 @@
     deadline <stacking> <limits> <t> <events>     → closed <t> <phase> <anchor> | open <phase>
         stacking = three flags  proxy tls mitm, e.g. `101`
         limits   = idle,readHeader,read,tls,proxyHdr
-        t        = instant `Serve` first uses the connection
+        t        = instant the connection's goroutine starts (its first use of the connection)
         events   = list of  <t>:<kind>   kind ∈ d (data) | c (complete) | hn | hb | hm (head: no body /
                    with body / intercepted CONNECT);  `~` = no event
-    accept <stacking> <limits> <free> <peers>     → list of <accept>:<start>   (`x` = never)
+    accept <stacking> <limits> <free> <peers>     → list of <accept>:<start>
         peers    = list of  <arrive>:<hdr>   hdr = instant the PROXY header is complete, `x` = never
+                   (what a peer sends does not enter the accept loop; it is part of the request all the same)
     holds close <limit> <elapsed> <eps> <slack>   → true | false early | false late
     limit <limits> <phase>                        → <n>     (0 = none)
 -/
@@ -55,16 +56,11 @@ def timedEvOf (s : String) : Option (Nat × Ev) :=
 def optNatOf (s : String) : Option (Option Nat) :=
   if s = "x" then some none else (natOf s).map some
 
-def showOptNat : Option Nat → String
-  | none => "x"
-  | some n => toString n
-
 def peerOf (s : String) : Option Peer :=
   match s.splitOn ":" with
   | [a, h] => do
     let a ← natOf a
     let h ← optNatOf h
-    -- the script only matters through the instant its first unit is complete
     pure ⟨a, match h with | some h => [(h, .complete)] | none => []⟩
   | _ => none
 
@@ -78,9 +74,9 @@ def handle : List String → String
     | some S, some L, some t, some es => showOutcome (run S L (accepted S L t) es)
     | _, _, _, _ => "bad-op"
   | ["accept", st, lim, free, peers] =>
-    match stackingOf st, limitsOf lim, optNatOf free, (splitList peers).mapM peerOf with
+    match stackingOf st, limitsOf lim, natOf free, (splitList peers).mapM peerOf with
     | some S, some L, some free, some ps =>
-      joinList ((serve S L free ps).map fun (a, s) => s!"{showOptNat a}:{showOptNat s}")
+      joinList ((serve S L free ps).map fun (a, s) => s!"{a}:{s}")
     | _, _, _, _ => "bad-op"
   | ["holds", "close", limit, elapsed, eps, slack] =>
     match natOf limit, natOf elapsed, natOf eps, natOf slack with
